@@ -421,11 +421,14 @@ func (g *G) node(depth int) Node {
 			if r.Bool() {
 				n.HasElse = true
 				n.Else = g.seq(depth+1, r.Range(0, 2))
+				if r.P(1, 3) {
+					n.ElseBefore = r.Range(1, len(n.Whens)) // else is the fallback wherever it stands among the clauses
+				}
 			}
 			n.T = g.trims(len(n.Whens) + 3)
 			return n
 		case (c == 13 || c == 14) && g.F.Loops && !leaf && g.loops < 2:
-			n := For{Var: []string{"i", "x", "n"}[r.Intn(3)], Coll: g.Coll(), Reversed: r.P(1, 4)}
+			n := For{Var: []string{"i", "x", "n"}[r.Intn(3)], Coll: g.Coll(), Reversed: r.P(1, 4), ModOrder: r.Intn(8)}
 			if g.F.Tablerow && r.P(1, 4) {
 				n.Tablerow = true
 				if r.Bool() {
